@@ -73,6 +73,22 @@ def indexOf? (l : List (Nat × Nat × Bytes)) (x : Nat × Nat × Bytes) : Option
   let i := l.findIdx (· == x)
   if i < l.length then some i else none
 
+/-- positions of what a consumer received in the published list. Equal messages can be published more than once (a
+    publisher may repeat its metadata): each received message is attributed to the first equal published one AFTER the
+    position of the previous received message, and to the first equal one at all when there is none -/
+def indexSeq (pub got : List (Nat × Nat × Bytes)) : Option (List Nat) :=
+  (got.foldl (fun (acc : Option (List Nat × Nat)) x =>
+    match acc with
+    | none => none
+    | some (out, next) =>
+      let later := (List.range (pub.length - next)).find? fun d => pub.getD (next + d) (0, 0, []) == x
+      match later with
+      | some d => some (out ++ [next + d], next + d + 1)
+      | none =>
+        match indexOf? pub x with
+        | some i => some (out ++ [i], next)
+        | none => none) (some ([], 0))).map (·.1)
+
 def isHeaderMsg (x : Nat × Nat × Bytes) : Bool :=
   x.1 == 18 || Classify.isVideoKeySeqHeader x.1 x.2.2 || Classify.isAacSeqHeader x.1 x.2.2
 
@@ -93,7 +109,7 @@ def ascending : List Nat → Bool
     run; everything in H and G precedes L, and between the first replayed frame and L only header
     messages and (when a per-GOP cap is configured) non-key frames may be missing. -/
 def contiguousRun (cap : Nat) (pub : List (Nat × Nat × Bytes)) (got : List (Nat × Nat × Bytes)) : String :=
-  match got.mapM (indexOf? pub) with
+  match indexSeq pub got with
   | none => "bad:received-a-message-that-was-never-published"
   | some idx =>
     let n := idx.length
@@ -158,7 +174,7 @@ def publishedInc (evs : List Ev) : List Nat :=
     last sequence header of its kind the consumer has seen with the last one published before the frame
     in the same incarnation. -/
 def seqHdrInForce (pub : List (Nat × Nat × Bytes)) (inc : List Nat) (got : List (Nat × Nat × Bytes)) : Bool :=
-  match got.mapM (indexOf? pub) with
+  match indexSeq pub got with
   | none => true
   | some idx =>
     let msgAt (i : Nat) : Nat × Nat × Bytes := pub.getD i (0, 0, [])
